@@ -601,7 +601,7 @@ class KernelPCovR(_BasePCA, LinearModel):
         U, Vt = svd_flip(U, Vt)
 
         # Get variance explained by singular values
-        explained_variance_ = (S**2) / (self.n_samples_in_ - 1)
+        explained_variance_ = S / (self.n_samples_in_ - 1)
         total_var = explained_variance_.sum()
         explained_variance_ratio_ = explained_variance_ / total_var
 
